@@ -15,7 +15,7 @@ RULE = ("rules: $deref with every present/absent combination of register_multipl
         "x displacement in {0x0,0x8,0x10,-0x8,0x80} (spelled with 0x, without 0x, YAML int where possible) x registers "
         "spelled with and without %, in operand position 1 (followed by a plain operand item) and 2; listings: one "
         "instruction whose operand in that position is EVERY operand of the menu {k(a,b,c),(a,b,c),k(a),(a),k(,b,c) over "
-        "base/index in {rax,rbx,rcx,rsp}, scale 1/2/4/8, disp in {0x0,0x8,0x10,0x18,-0x8,0x80}} plus registers and "
+        "base/index in {rax,rbx,rcx,rsp}, scale 1/2/4/8, disp in {0x0,0x8,0x10,0x18,-0x8,0x80,0x7fffffff,-0x80000000,0x12345678}} plus registers and "
         "immediates (AT&T text through the real operand normaliser). Oracle: component-wise equality (same present "
         "components, each equal modulo optional % / 0x). Non-trivial = reference finds the rule, or the operand is a "
         "bracket form with the same main register.")
@@ -26,7 +26,7 @@ LEVEL_NOTE = "Trusted: mc/refmodel.py bracket parser/deref semantics and normali
 
 REGS_L = ["rax", "rbx", "rcx", "rsp"]
 SCALES_L = ["1", "2", "4", "8"]
-DISP_L = ["0x0", "0x8", "0x10", "0x18", "-0x8", "0x80"]
+DISP_L = ["0x0", "0x8", "0x10", "0x18", "-0x8", "0x80", "0x7fffffff", "-0x80000000", "0x12345678"]
 
 
 def operand_menu():
@@ -60,7 +60,7 @@ def rules_for(tier):
     rules = []
     A, B = ["rax", "rbx"], ["rbx", "rcx"]
     C = [("1", 1), ("4", 4), ("8", 8), ("4", "0x4"), ("4", "4")]
-    K = [("0x0", "0x0"), ("0x0", 0), ("0x0", "0"), ("0x8", "0x8"), ("0x8", 8), ("0x8", "8"), ("0x10", "0x10"), ("0x10", "10"),
+    K = [("0x7fffffff", "0x7fffffff"), ("0x7fffffff", "7fffffff"), ("-0x80000000", "-0x80000000"), ("-0x80000000", "-80000000"), ("0x0", "0x0"), ("0x0", 0), ("0x0", "0"), ("0x8", "0x8"), ("0x8", 8), ("0x8", "8"), ("0x10", "0x10"), ("0x10", "10"),
          ("-0x8", "-0x8"), ("-0x8", "-8"), ("0x80", "0x80"), ("0x80", "80")]
     for pct in (False, True):
         for a in A:
